@@ -27,6 +27,7 @@ rows.append("")
 rows.append("%d seeded changes, %d caught by at least one quick check." % (n, caught))
 p = os.path.join(HERE, "DESIGN.md")
 s = open(p).read()
-s = re.sub(r"<!-- SEED-TABLE-BEGIN -->.*<!-- SEED-TABLE-END -->", "<!-- SEED-TABLE-BEGIN -->\n" + "\n".join(rows) + "\n<!-- SEED-TABLE-END -->", s, flags=re.S)
+block = "<!-- SEED-TABLE-BEGIN -->\n" + "\n".join(rows) + "\n<!-- SEED-TABLE-END -->"
+s = re.sub(r"<!-- SEED-TABLE-BEGIN -->.*<!-- SEED-TABLE-END -->", lambda m: block, s, flags=re.S)
 open(p, "w").write(s)
 print(rows[-1])
